@@ -351,6 +351,105 @@ def job_dwarf(payload):
     return out
 
 
+VOC_TEXTS = ["0 10 aset length", "[1, 2] length", '"abc" length', "0 5 aset 7 9 aset add", "[1] [2] add", "0 5 aset elem", "[1, 2] elem", "0 3 aset ?empty",
+             "[] ?empty", "0 9 aset 3 ?contains", "1 2 add", '"a" "b" add', "0 5 aset (1 3 aset) sub", "3 2 sub", "0 5 aset relem", '"ab" relem', "0 5 aset low",
+             "0 4 aset (2 9 aset) overlap", "[0 4 aset, 1] elem length", "(0 4 aset, [1], \"a\") length", "0 4 aset value", "0x10 value", "1 pos", "T_ASET", "DW_AT_name value"]
+
+
+def job_vocgrow(payload):
+    """The same text compiled twice with ONE vocabulary object that grew in between (core words first, DWARF words added): the second
+    query must be what a fresh compile with the complete vocabulary is -- overloaded words (length, add, elem, ...) mean more afterwards."""
+    seed, count = payload
+    d = common.get_driver()
+    rng = random.Random(seed)
+    out = {"vocgrow_runs": 0, "vocgrow_first_compile_rejected_or_narrower": 0, "bad": []}
+    texts = list(VOC_TEXTS)
+    for i in range(count):
+        g = zgen.Gen(rng, maxdepth=rng.randint(1, 3), err_rate=0.05)
+        texts.append(zast.text(g.program([])))
+    tdir = os.path.join(common.REPO, "tests")
+    f = os.path.join(tdir, "typedef.o")
+    dw = [("entry name", "d:" + common.hx(f)), ("entry ?TAG_typedef @AT_type length", "d:" + common.hx(f)), ("[entry] length", "d:" + common.hx(f)), ("entry offset", "d:" + common.hx(f))]
+    for t, inp in [(t, "") for t in texts] + (dw if os.path.exists(f) else []):
+        try:
+            a = d.run(t, inp=inp, fuel=zcheck.FUEL, max=zcheck.MAXRES)
+            b = d.run(t, inp=inp, fuel=zcheck.FUEL, max=zcheck.MAXRES, voc="grow")
+            if zcheck.skipped(a) or zcheck.skipped(b):
+                continue
+            out["vocgrow_runs"] += 1
+            if (a["st"], a.get("res"), bool(a["stderr"])) != (b["st"], b.get("res"), bool(b["stderr"])):
+                out["bad"].append(("impure:compiled-again-after-the-vocabulary-grew", dict(text=t, fresh=dict(st=a["st"], msg=a.get("msg"), n=len(a.get("res", [])), stderr=a["stderr"][:200]),
+                                                                                           again=dict(st=b["st"], msg=b.get("msg"), n=len(b.get("res", [])), stderr=b["stderr"][:200]))))
+            if b.get("evbad"):
+                out["bad"].append(("api-contract", dict(text=t, ev=b["ev"])))
+        except common.DriverCrash as ex:
+            out["bad"].append(("crash:" + getattr(ex, "key", ex.kind), dict(text=t, report=ex.report[-3000:])))
+        except common.DriverTimeout as ex:
+            out["bad"].append(("hang", dict(text=t)))
+    out["bad"] = out["bad"][:30]
+    return out
+
+
+DEEP_TEXTS = ["let .seq := {|F T seq| ?(F T ?le) F, ?(F T ?lt) F 1 add T {seq} seq}; let seq := {{.seq} .seq}; 1 %d seq",
+              "let .cnt := {|N cnt| N, ?(N 0 ?gt) N 1 sub {cnt} cnt}; let cnt := {{.cnt} .cnt}; %d cnt",
+              "[(1, 2, 3)] (|S| let .w := {|K w| K S elem add, ?(K %d ?lt) K 1 add {w} w}; {.w} .w)"]
+
+
+def job_many_live(payload):
+    """MANY result sets of one compiled query alive at once, each read part of the way into a deep chain of closure applications and
+    parked; then one more execution from start to end, then every parked one resumed: each must yield what a fresh process yields."""
+    seed, = payload
+    d = common.get_driver()
+    rng = random.Random(seed)
+    out = {"many_live_sets": 0, "many_live_pulls": 0, "bad": []}
+    for tmpl in DEEP_TEXTS:
+        depth = rng.choice([40, 70, 100])
+        text = tmpl % depth
+        inp = "" if "|K w|" not in text else "i:0:dec:0"
+        try:
+            fresh = common.Driver()
+            try:
+                ref = fresh.run(text, inp=inp, fuel=0, max=5000, timeout=120)      # (finite by construction: no step budget)
+            finally:
+                fresh.kill()
+            if ref["st"] != "done" or len(ref["res"]) < 10:
+                out["bad"].append(("many-live:reference-run-failed", dict(text=text, st=ref["st"], msg=ref.get("msg")))); continue
+            want = [ser(x) for x in ref["res"]]
+            d.req("parse id=ml q=%s" % common.hx(text))
+            K = rng.choice([6, 10, 16])
+            cut = [rng.randint(len(want) // 3, len(want) - 2) for _ in range(K)]
+            ok = True
+            for i in range(K):
+                d.req("exec qid=ml rid=ml%d in=%s fuel=0" % (i, inp))
+                rr = d.req("next rid=ml%d max=%d fuel=0" % (i, cut[i]), timeout=120)
+                out["many_live_pulls"] += 1
+                if [ser(x) for x in rr.get("res", [])] != want[:cut[i]]:
+                    out["bad"].append(("impure:parked-result-sets:prefix-differs-from-fresh-run", dict(text=text, live=i, st=rr["st"], msg=rr.get("msg"), got=len(rr.get("res", [])), want=cut[i])))
+                    ok = False; break
+            if ok:
+                d.req("exec qid=ml rid=mlx in=%s fuel=0" % inp)
+                rr = d.req("next rid=mlx max=100000 fuel=0", timeout=120)
+                if rr["st"] != "done" or [ser(x) for x in rr.get("res", [])] != want:
+                    out["bad"].append(("impure:execution-beside-parked-result-sets-differs-from-fresh-run", dict(text=text, live=K, st=rr["st"], msg=rr.get("msg"), got=len(rr.get("res", [])), want=len(want))))
+                d.req("rdestroy rid=mlx")
+                order = list(range(K)); rng.shuffle(order)
+                for i in order:
+                    rr = d.req("next rid=ml%d max=100000 fuel=0" % i, timeout=120)
+                    out["many_live_pulls"] += 1
+                    if rr["st"] != "done" or [ser(x) for x in rr.get("res", [])] != want[cut[i]:]:
+                        out["bad"].append(("impure:resumed-result-set-differs-from-fresh-run", dict(text=text, live=K, st=rr["st"], msg=rr.get("msg"), got=len(rr.get("res", [])), want=len(want) - cut[i])))
+                        break
+                out["many_live_sets"] += K
+            for i in range(K):
+                d.req("rdestroy rid=ml%d" % i)
+            d.req("qdestroy id=ml")
+        except common.DriverCrash as ex:
+            out["bad"].append(("crash:" + getattr(ex, "key", ex.kind), dict(text=text, report=ex.report[-3000:])))
+        except common.DriverTimeout as ex:
+            out["bad"].append(("hang", dict(text=text)))
+    return out
+
+
 def run(chk):
     quick = chk.tier == "quick"
     pool = common.Pool()
@@ -364,9 +463,13 @@ def run(chk):
     files = [os.path.join(tdir, f) for f in ("typedef.o", "nontrivial-types.o", "dwz-partial", "a1.out", "enum.o", "bitcount.o", "dwz-partial2-1", "char_16_32.o", "twocus", "dwz-partial3-1")
              if os.path.exists(os.path.join(tdir, f))]
     zcheck.consume(chk, pool.map(job_dwarf, [(f, chk.seed + i) for i, f in enumerate(files)]), tot, ctx, samples, "C12 dwarf")
+    zcheck.consume(chk, pool.map(job_many_live, [(chk.seed * 15485863 + i,) for i in range(6 if quick else 100)]), tot, ctx, samples, "C12 many live")
+    zcheck.consume(chk, pool.map(job_vocgrow, [(chk.seed * 2750159 + i, 30) for i in range(8 if quick else 160)]), tot, ctx, samples, "C12 vocabulary")
     hs = pool.hook_stats()
     pool.finish()
     chk.cov.update({
+        "result_sets_parked_deep_in_closure_recursion_beside_each_other": tot.get("many_live_sets", 0),
+        "texts_compiled_again_after_their_vocabulary_grew": tot.get("vocgrow_runs", 0),
         "evaluations": tot.get("histories", 0) + tot.get("compile_pairs", 0) + tot.get("dw_histories", 0),
         "distinct_nontrivial": tot.get("nontrivial", 0),
         "rule": "one evaluation = one API history (interleaving of pulls/destroys over 1-3 live results of one compiled text) compared pull by pull "
